@@ -48,8 +48,7 @@ def r1_lastkey(ck, F, R="C02-R1"):
     ck.ob(R, "last-key-getter", pure_option_view(e, "last_key"), f"BlockWriter::last_key returns {e.show()}", lk)
 
 
-def r2_descent(ck, F):
-    R = "C02-R2"
+def r2_descent(ck, F, R="C02-R2"):
     b = F.body(A("rc_prefix") + "move_on_key_greater_than_or_equal_to")
     ix = calls(b, A("ibc_prefix") + "move_on_key_greater_than_or_equal_to")
     ck.exact(R, "index >=-seek calls in ReaderCursor >=-seek", len(ix), 1, F.config)
@@ -109,8 +108,7 @@ def _is_captured_probe(e):
     return e.k == "field" and e.a[0].strip().k == "arg" and e.a[0].strip().x["i"] == 1 and e.x.get("adt") == "closure"
 
 
-def r3_rel(ck, F):
-    R = "C02-R3"
+def r3_rel(ck, F, R="C02-R3"):
     # --- BlockCursor <=-seek: binary search + linear scan
     le = F.body(A("bc_le"))
     bs = calls(le, "binary_search_by_key")
